@@ -22,7 +22,7 @@ def isint(r):
 class Trace:
     def __init__(self, lines, out):
         self.lines = lines
-        self.out = [o for o in out if not o.startswith('closes:')]
+        self.out = [o for o in out if not o.startswith('closes:') and not o.startswith('frees:')]
         self.recs, self.events, self.ok = align(lines, self.out)
         self.reg = {}        # handle -> (name, flags, hooks)
         for r in self.recs:
@@ -118,12 +118,13 @@ def c07(lines, out):
 def c15(lines, out):
     tr = Trace(lines, out)
     v = common(tr)
-    for o in tr.out:
-        if o.startswith('S '):
-            _, mods = parse_dump(o)
+    for r in tr.recs:
+        # between callbacks a module being deregistered is already out of the table: look at top-level returns only
+        if r.depth == 0 and r.dump:
+            _, mods = parse_dump(r.dump)
             names = [tr.reg[h][0] for h, m in mods.items() if m['state'] != 'Z' and h in tr.reg]
             if len(names) != len(set(names)):
-                v.append(('unique_names', 'two live modules share a name: %s' % o))
+                v.append(('unique_names', 'two live modules share a name: %s' % r.dump))
     for r in tr.recs:
         t = r.op.split()
         if len(t) >= 2 and t[1] in tr.reg and r.result is not None and isint(r.result):
@@ -275,30 +276,48 @@ def c16(lines, out):
     tr = Trace(lines, out)
     v = common(tr)
     stash = {}
-    for kind, inv, r in tr.events:
-        if kind != 'R':
-            continue
+    handled = set()
+
+    def do_unstash(r, got_invoke):
+        """the events leave the stash before the handler is invoked"""
         t = r.op.split()
+        n = int(t[2]); have = stash.get(t[1], [])
+        exp = have[:n]
+        stash[t[1]] = have[n:]
+        handled.add(id(r))
+        return exp
+
+    pending = {}
+    for kind, inv, r in tr.events:
+        t = r.op.split()
+        if kind == 'I':
+            if t[0] == 'unstash' and id(r) not in handled:
+                cb, hd, h, stt, evs = parse_invoke(inv)
+                exp = do_unstash(r, True)
+                pending[id(r)] = exp
+                if cb == 'on_evt' and h == t[1] and [(k, f[:4]) for k, f in evs] != [(k, f[:4]) for k, f in exp]:
+                    v.append(('oldest_first', '%s handed back %s, oldest stashed are %s' % (r.op, evs, exp)))
+            continue
         _, pm = parse_dump(r.prev_dump) if r.prev_dump else (None, {})
-        if t[0] == 'stash' and r.result == '0' and r.parent_cb:
-            evs = parse_invoke(r.parent_cb)[4]
+        if t[0] == 'stash' and r.result == '0' and r.evt_cb:
+            evs = parse_invoke(r.evt_cb)[4]
             i = int(t[2])
             if i < len(evs):
                 stash.setdefault(t[1], []).append(evs[i])
-                if pm.get(t[1], {}).get('state') != 'R':
-                    v.append(('running_only', 'stash accepted in state %s' % pm.get(t[1], {}).get('state')))
+                st = pm.get(t[1], {}).get('state')
+                if st is not None and st != 'R':
+                    v.append(('running_only', 'stash accepted in state %s' % st))
         if t[0] == 'unstash' and isint(r.result) and int(r.result) >= 0:
-            n = int(t[2]); have = stash.get(t[1], [])
-            exp = have[:n]
+            exp = pending.pop(id(r), None)
+            if exp is None:
+                exp = do_unstash(r, False)
+                if exp:
+                    v.append(('one_invocation', '%s returned %s without invoking the handler' % (r.op, r.result)))
             if int(r.result) != len(exp):
-                v.append(('count', '%s returned %s, %d events were stashed' % (r.op, r.result, len(have))))
-            own = [parse_invoke(i) for i in r.invokes if parse_invoke(i)[0] == 'on_evt' and parse_invoke(i)[2] == t[1]]
-            got = own[0][4] if own else []
-            if exp and [(k, f[:4]) for k, f in got] != [(k, f[:4]) for k, f in exp]:
-                v.append(('oldest_first', '%s handed back %s, oldest stashed are %s' % (r.op, got, exp)))
+                v.append(('count', '%s returned %s, %d events were to be handed back' % (r.op, r.result, len(exp))))
+            own = [i for i in r.invokes if parse_invoke(i)[0] == 'on_evt' and parse_invoke(i)[2] == t[1]]
             if len(own) > 1:
                 v.append(('one_invocation', '%s invoked the handler %d times' % (r.op, len(own))))
-            stash[t[1]] = have[n:]
         if r.dump:
             _, mods = parse_dump(r.dump)
             for h, m in mods.items():
@@ -369,7 +388,9 @@ def c18(lines, out):
     tr = Trace(lines, out)
     v = common(tr)
     burst = {}
-    for r in tr.recs:
+    for kind, inv, r in tr.events:
+        if kind != 'R':
+            continue
         t = r.op.split()
         if t[0] == 'tb' and r.result == '0':
             burst[t[1]] = None if t[2] == '0' else int(t[3])
@@ -377,11 +398,16 @@ def c18(lines, out):
             v.append(('refused_unchanged', '%s was refused with EAGAIN but had an effect' % r.op))
         if r.dump:
             _, mods = parse_dump(r.dump)
+            _, pm = parse_dump(r.prev_dump) if r.prev_dump else (None, {})
             for h, m in mods.items():
                 if m.get('tk') is not None and burst.get(h) is not None and m['tk'] > burst[h]:
                     v.append(('burst', '%s holds %d tokens, burst is %d' % (h, m['tk'], burst[h])))
-                if m['state'] in ('S', 'Z') and m.get('tk') is not None:
-                    v.append(('stop_resets', '%s is stopped but still has a token bucket' % h))
+                if m['state'] in ('S', 'Z'):
+                    if t[0] in ('stop', 'dereg', 'pill') and len(t) > 1 and t[1] == h and pm.get(h, {}).get('state') in ('R', 'P') \
+                            and m.get('tk') is not None and not r.invokes:
+                        v.append(('stop_resets', '%s was stopped but still has a token bucket' % h))
+                    if t[0] != 'tb':
+                        burst.pop(h, None) if m.get('tk') is None else None
     return v
 
 
@@ -429,27 +455,31 @@ def c20(lines, out):
         if t[0] == 'reg_fd' and r.result == '0' and 'a' in t[3]:
             auto.add(t[2][1:])
     closed = set()
+    nr = nw = 0
     for o in out:
-        if o.startswith('closes:'):
-            toks = o.split()[1:]
-            for a, b in zip(toks[0::2], toks[1::2]):
-                if b.startswith('fd:'):
-                    k = b[3:]
-                    if k not in auto:
-                        v.append(('user_fd', 'descriptor f%s closed by the library although it was never registered with auto-close' % k))
-                    if k in closed:
-                        v.append(('user_fd_once', 'descriptor f%s closed twice' % k))
-                    closed.add(k)
-            nr = sum(1 for b in toks[1::2] if b == 'pipe-r'); nw = sum(1 for b in toks[1::2] if b == 'pipe-w')
-            # every module whose pipe is closed (p0) after having been started closed both ends
-            last = None
-            for x in out:
-                if x.startswith('S '): last = x
-            if last:
-                _, mods = parse_dump(last)
-                open_pipes = sum(1 for m in mods.values() if m.get('pipe') == 1)
-                if nr != nw and open_pipes == 0:
-                    v.append(('pipes', 'pipe ends closed: %d read, %d write' % (nr, nw)))
+        if not o.startswith('close '):
+            continue
+        b = o.split()[1]
+        if b.startswith('fd:'):
+            k = b[3:]
+            if k not in auto:
+                v.append(('user_fd', 'descriptor f%s closed by the library although it was never registered with auto-close' % k))
+            if k in closed:
+                v.append(('user_fd_once', 'descriptor f%s closed twice' % k))
+            closed.add(k)
+        elif b == 'pipe-r':
+            nr += 1
+        elif b == 'pipe-w':
+            nw += 1
+    last = None
+    for x in out:
+        if x.startswith('S '):
+            last = x
+    if last and tr.ok:
+        _, mods = parse_dump(last)
+        open_pipes = sum(1 for m in mods.values() if m.get('pipe') == 1)
+        if nr != nw and open_pipes == 0:
+            v.append(('pipes', 'every module pipe is gone but %d read ends and %d write ends were closed' % (nr, nw)))
     return v
 
 
